@@ -106,6 +106,13 @@ type kernel struct {
 	rsp  bool
 }
 
+// pendingMsg remembers what a delivered completion message carried, to notice a dispatcher taking its share
+// out of it (the message object is the harness's own: no port access is needed to look at it).
+type pendingMsg struct {
+	msg  *protocol.WGCompletionMsg
+	left []string
+}
+
 type mapInfo struct {
 	m   int
 	k   int
@@ -134,6 +141,7 @@ type run struct {
 	nev      int
 	runaway  bool
 	stats    map[string]int
+	inPort   []*pendingMsg // completion messages delivered to the CP and not yet retrieved by it
 	cyc      int
 	dead     bool
 	lastIdle bool
@@ -327,7 +335,10 @@ func newRun(rec *ab.Recorder, sc *Scenario, emu bool) *run {
 					ids = append(ids, v)
 				}
 				r.emit("Complete", ab.Rec{"mid": rec.ID("cmsg", m.ID), "c": c, "ids": ids})
+				r.inPort = append(r.inPort, &pendingMsg{msg: m, left: append([]string{}, m.RspTo...)})
 			case sim.HookPosPortMsgRetrieveIncoming:
+				r.dropPending(m)
+				r.noteStrips()
 				r.emit("Consume", ab.Rec{"mid": rec.ID("cmsg", m.ID)})
 			}
 		}
@@ -335,7 +346,42 @@ func newRun(rec *ab.Recorder, sc *Scenario, emu bool) *run {
 	return r
 }
 
+// noteStrips emits a Strip line for every pending completion message that lost ids since it was last looked at.
+func (r *run) noteStrips() {
+	for _, p := range r.inPort {
+		if len(p.msg.RspTo) >= len(p.left) {
+			continue
+		}
+		still := map[string]bool{}
+		for _, id := range p.msg.RspTo {
+			still[id] = true
+		}
+		gone := []int{}
+		for _, id := range p.left {
+			if !still[id] {
+				v, _ := r.rec.Known("map", id)
+				gone = append(gone, v)
+			}
+		}
+		p.left = append([]string{}, p.msg.RspTo...)
+		if len(p.left) > 0 {
+			r.emit("Strip", ab.Rec{"mid": r.rec.ID("cmsg", p.msg.ID), "ids": gone})
+		}
+	}
+}
+
+func (r *run) dropPending(m *protocol.WGCompletionMsg) {
+	keep := r.inPort[:0]
+	for _, p := range r.inPort {
+		if p.msg != m {
+			keep = append(keep, p)
+		}
+	}
+	r.inPort = keep
+}
+
 func (r *run) onMapSent(m *protocol.MapWGReq) {
+	r.noteStrips()
 	kid, w := 0, -1
 	if m.WorkGroup != nil {
 		if k, ok := r.byPacket[m.WorkGroup.Packet]; ok {
@@ -382,6 +428,7 @@ func (r *run) runUntil(t sim.VTimeInSec) {
 		}
 	}()
 	r.eng.RunUntil(t)
+	r.noteStrips()
 	if r.emu != nil {
 		r.emu.shuttle()
 	}
